@@ -73,7 +73,9 @@ CHECKS = {
              "initial state; order independence under any permutation; BER count additive over any partition (= one shot on the "
              "concatenation), symmetric, zero iff the thresholded inputs agree, at most 1; BLER additive, symmetric, non-divisor rows "
              "rejected; BER <= BLER <= min(1, B*BER) as exact cross-multiplied inequalities for every block size. Model tied to the code by "
-             "every history up to length 5 (quick) / 6 (thorough) over a pool of batches, random long histories, one-shot cases.",
+             "every history up to length 5 (quick) / 6 (thorough) over a pool of batches, random long histories, one-shot cases. Multi-dimensional items: "
+             "cutting whole blocks row by row (Tensor.unfold) equals cutting the flattened item when the block size divides every row, and is refuted with a witness "
+             "when it divides only the item (Metrics/BlockCut.v); the implementation is compared with the kernel-evaluated flattened cut on such shapes.",
         design="6/C16",
         note="Trusted: Coq kernel + vm_compute; hand-written model Metrics/ErrorRate.v tied by correspondence; float32 result of compute() "
              "compared with the correctly rounded exact ratio; int64 counters assumed not to overflow. Closed under the global context.",
